@@ -135,6 +135,9 @@ theorem elem_comp_ok (types : List Elem) : ∀ fuel, ElemOK types fuel ∧ CompO
             split at h
             · simp at h
             · rename_i sz lv1 he
+              by_cases hov : offsetMax < off + sz
+              · rw [if_pos hov] at h; simp at h
+              rw [if_neg hov] at h
               split at h
               · simp at h
               · rename_i total' lv2 hr
@@ -189,6 +192,9 @@ theorem field_ok (types : List Elem) : ∀ (fields : List FieldDef) (cur total :
           · simp at h
           · rename_i szlv hszlv
             obtain ⟨sz, lv1⟩ := szlv
+            by_cases hov : offsetMax < off + sz
+            · rw [if_pos hov] at h; simp at h
+            rw [if_neg hov] at h
             split at h
             · simp at h
             · rename_i tl hr
